@@ -173,4 +173,17 @@ theorem usage_pool_clients_match_source :
     guarded "ConnectionPolicy.buildStandardTLSConfig" "Delete" "if p.InsecureSecretsLog!=\"\"" = true ∧
     guarded "Handler.proxyLoopIteration" "Delete" "defer" = true := by decide
 
+/-- **regenerated tie, the per-request client's PAIRING.** In `Handler.proxyLoopIteration` the loop that provisions
+    the dynamic upstreams and the deferred loop that releases them range over the same slice; the provisioning loop's
+    body is the one call `h.provisionUpstream(dUp)` — no element is skipped, replaced or taken from elsewhere —; the
+    release is `hosts.Delete(upstream.String())`, the key `fillHost` stored under; and the only write to that slice or
+    to any of its elements is its definition from the source's answer.  So every element that reaches the release was
+    acquired in the same iteration: the request's program is `Model.requestOps` (a release for each of ITS OWN
+    acquisitions), for which `per_request_client_keeps_count` holds.  Substituting an element (e.g. by a static
+    upstream) without provisioning it breaks this. -/
+theorem dynamic_upstream_pairing_matches_source :
+    Gen.dynamicUpstreamPairing =
+      ("dUpstreams", ["h.provisionUpstream(dUp)"], "dUpstreams", "upstream.String()",
+       ["dUpstreams,err:=h.DynamicUpstreams.GetUpstreams(r)"]) := by decide
+
 end CaddyModel.C04
